@@ -137,6 +137,30 @@ impl<'a> Sink for RecSink<'a> {
     }
 }
 
+fn do_search<M: Matcher>(
+    matcher: M,
+    searcher: &mut Searcher,
+    strat: &str,
+    inp: &[u8],
+    rdr: &mut ScriptedReader<'_>,
+    sink: &mut RecSink<'_>,
+) -> Result<(), io::Error> {
+    match strat {
+        "reader" => searcher.search_reader(matcher, rdr, sink),
+        "slice" => searcher.search_slice(matcher, inp, sink),
+        "mmap" | "file" => {
+            let dir = std::env::temp_dir().join(format!("verif-rs-{}", std::process::id()));
+            std::fs::create_dir_all(&dir).unwrap();
+            let p = dir.join("input");
+            std::fs::File::create(&p).unwrap().write_all(inp).unwrap();
+            let r = searcher.search_path(matcher, &p, sink);
+            let _ = std::fs::remove_file(&p);
+            r
+        }
+        other => Err(io::Error::new(io::ErrorKind::Other, format!("unknown strat {other}"))),
+    }
+}
+
 fn run_one(v: &Value, cache: &mut std::collections::HashMap<String, Searcher>) -> Value {
     let scn = &v["scn"];
     let inp = bytes_of(&scn["inp"]);
@@ -218,20 +242,30 @@ fn run_one(v: &Value, cache: &mut std::collections::HashMap<String, Searcher>) -
         fallback: v.get("fallback").and_then(|f| f.as_u64()).unwrap_or(0) as usize,
         wants: vec![],
     };
-    let res = catch_unwind(AssertUnwindSafe(|| match strat {
-        "reader" => searcher.search_reader(&matcher, &mut rdr, &mut sink),
-        "slice" => searcher.search_slice(&matcher, &inp, &mut sink),
-        "mmap" | "file" => {
-            let dir = std::env::temp_dir().join(format!("verif-rs-{}", std::process::id()));
-            std::fs::create_dir_all(&dir).unwrap();
-            let p = dir.join("input");
-            std::fs::File::create(&p).unwrap().write_all(&inp).unwrap();
-            let r = searcher.search_path(&matcher, &p, &mut sink);
-            let _ = std::fs::remove_file(&p);
-            r
+    let pattern = v.get("pattern").and_then(|p| p.as_str());
+    let res = match pattern {
+        None => catch_unwind(AssertUnwindSafe(|| do_search(&matcher, searcher, strat, &inp, &mut rdr, &mut sink))),
+        Some(pat) => {
+            // the matcher rg builds for -U: no line terminator, optional dotall / crlf / word / line / case
+            let mut mb = grep_regex::RegexMatcherBuilder::new();
+            let mo = &v["mopts"];
+            let b = |k: &str| mo.get(k).and_then(|x| x.as_bool()).unwrap_or(false);
+            mb.multi_line(true)
+                .octal(false)
+                .case_insensitive(b("ci"))
+                .word(b("word") && !b("line"))
+                .whole_line(b("line"))
+                .dot_matches_new_line(b("dotall"));
+            if b("crlf") {
+                mb.crlf(true);
+            }
+            mb.line_terminator(None);
+            match mb.build(pat) {
+                Err(e) => Ok(Err(io::Error::new(io::ErrorKind::Other, format!("build: {e}")))),
+                Ok(m) => catch_unwind(AssertUnwindSafe(|| do_search(&m, searcher, strat, &inp, &mut rdr, &mut sink))),
+            }
         }
-        other => Err(io::Error::new(io::ErrorKind::Other, format!("unknown strat {other}"))),
-    }));
+    };
     let (result, err) = match res {
         Err(p) => {
             let msg = p.downcast_ref::<String>().cloned().or_else(|| p.downcast_ref::<&str>().map(|s| s.to_string())).unwrap_or_default();
